@@ -20,6 +20,9 @@ type Case struct {
 	Shape   []int `json:"shape"`   // statements per file
 	Choices []int `json:"choices"` // explorer choice list
 	Crash   bool  `json:"crash_alphabet"`
+	// Ck: 1-based index of the file that is a checkpoint (`-- atlas:checkpoint`), 0 = none. A first
+	// run on an empty history starts at the checkpoint; the files before it are never executed.
+	Ck int `json:"checkpoint,omitempty"`
 }
 
 type attempt struct {
@@ -34,7 +37,11 @@ var errInjected = errors.New("verif: injected fault")
 const horizon = 6
 
 // exec runs one execution and returns the list of problems (empty = property held).
-func exec(shape []int, crashAlpha bool, x *explore.X) (problems []string, faults int, trace []string) {
+func exec(shape []int, crashAlpha bool, ck int, x *explore.X) (problems []string, faults int, trace []string) {
+	st := 0 // first file a run on an empty history executes
+	if ck > 0 {
+		st = ck - 1
+	}
 	files := map[string]string{}
 	var names []string
 	stmtsOf := make([][]string, len(shape))
@@ -45,6 +52,9 @@ func exec(shape []int, crashAlpha bool, x *explore.X) (problems []string, faults
 		name := fmt.Sprintf("%d_f.sql", f+1)
 		names = append(names, name)
 		files[name] = mighelp.StmtFile(stmtsOf[f])
+		if f+1 == ck {
+			files[name] = "-- atlas:checkpoint\n\n" + files[name]
+		}
 	}
 	dir, err := mighelp.Dir(files)
 	if err != nil {
@@ -78,7 +88,7 @@ func exec(shape []int, crashAlpha bool, x *explore.X) (problems []string, faults
 	}
 	// first statement not recorded in the store.
 	firstUnrecorded := func() [2]int {
-		for f := range shape {
+		for f := st; f < len(shape); f++ {
 			r, ok := store.Revs[fmt.Sprint(f+1)]
 			if !ok {
 				return [2]int{f, 0}
@@ -237,6 +247,17 @@ func exec(shape []int, crashAlpha bool, x *explore.X) (problems []string, faults
 	// final state.
 	for f := range shape {
 		r, ok := store.Revs[fmt.Sprint(f+1)]
+		if f < st {
+			if ok {
+				bad("final: file %d precedes the checkpoint and has a revision", f+1)
+			}
+			for i := 0; i < shape[f]; i++ {
+				if succ[[2]int{f, i}] > 0 {
+					bad("final: statement %d of file %d, which precedes the checkpoint, was executed", i+1, f+1)
+				}
+			}
+			continue
+		}
 		if !ok {
 			bad("final: no revision for file %d", f+1)
 			continue
@@ -285,7 +306,7 @@ func Run(r *report.Run) {
 	if r.Tier == "thorough" {
 		bound = 3
 	}
-	r.Rule = "every directory shape (1..3 files x 1..3 statements) x every placement of <=bound faults over the choice points {ExecContext: ok/fail, WriteRevision: ok/fail-without-persist} and, in the crash alphabet, additionally {die before, die after} at both kinds of point, followed by clean re-runs; real migrate.Executor over a recording driver/store; non-trivial = execution with >=1 injected fault; distinct = (shape, alphabet, choice list)"
+	r.Rule = "every directory shape (1..3 files x 1..3 statements; no checkpoint or any one file a checkpoint) x every placement of <=bound faults over the choice points {ExecContext: ok/fail, WriteRevision: ok/fail-without-persist} and, in the crash alphabet, additionally {die before, die after} at both kinds of point, followed by clean re-runs; real migrate.Executor over a recording driver/store; non-trivial = execution with >=1 injected fault; distinct = (shape, checkpoint, alphabet, choice list)"
 	r.Assumptions = []string{
 		"a failed revision write persists nothing; a simulated process death freezes both stores (deferred code may run but cannot write)",
 		"statement texts are unique per directory so the recording driver can identify them",
@@ -307,10 +328,13 @@ func Run(r *report.Run) {
 	type job struct {
 		shape []int
 		crash bool
+		ck    int
 	}
 	var jobs []job
 	for _, s := range shapes {
-		jobs = append(jobs, job{s, false}, job{s, true})
+		for ck := 0; ck <= len(s); ck++ {
+			jobs = append(jobs, job{s, false, ck}, job{s, true, ck})
+		}
 	}
 	stats := make([]explore.Stats, len(jobs))
 	outcomes := make([]map[string]bool, len(jobs))
@@ -322,24 +346,24 @@ func Run(r *report.Run) {
 			b = 2
 		}
 		stats[i] = explore.Explore(b, func(x *explore.X) {
-			problems, faults, trace := exec(j.shape, j.crash, x)
+			problems, faults, trace := exec(j.shape, j.crash, j.ck, x)
 			cs := explore.Trim(x.Choices())
-			key := fmt.Sprintf("%v|%v|%v", j.shape, j.crash, cs)
+			key := fmt.Sprintf("%v|%v|%v|%v", j.shape, j.ck, j.crash, cs)
 			r.Case(key, faults > 0)
 			outcomes[i][strings.Join(trace, ";")] = true
-			c := Case{j.shape, cs, j.crash}
+			c := Case{j.shape, cs, j.crash, j.ck}
 			if len(problems) > 0 {
 				// believe a failure only if it reproduces identically.
 				for k := 0; k < 2; k++ {
-					p2, _, _ := exec(j.shape, j.crash, explore.Replay(cs))
+					p2, _, _ := exec(j.shape, j.crash, j.ck, explore.Replay(cs))
 					if strings.Join(p2, "\n") != strings.Join(problems, "\n") {
 						r.Violate("", "NONDETERMINISTIC HARNESS: replay of "+key+" differs", c)
 						return
 					}
 				}
-				r.Violate("", fmt.Sprintf("shape=%v crash=%v choices=%v: %s", j.shape, j.crash, cs, strings.Join(problems, " | ")), c)
+				r.Violate("", fmt.Sprintf("shape=%v checkpoint=%d crash=%v choices=%v: %s", j.shape, j.ck, j.crash, cs, strings.Join(problems, " | ")), c)
 			}
-			if faults == 2 && len(j.shape) == 2 {
+			if faults == 2 && len(j.shape) == 2 && j.ck == 0 {
 				r.Sample(map[string]any{"shape": j.shape, "crash_alphabet": j.crash, "choices": cs, "trace": trace})
 			}
 		}, func(*explore.X) {})
@@ -355,6 +379,7 @@ func Run(r *report.Run) {
 		nout += len(outcomes[i])
 	}
 	r.Set("shapes", len(shapes))
+	r.Set("shape_checkpoint_alphabet_combinations", len(jobs))
 	r.Set("deviation_bound_completed", bound)
 	r.Set("executions", tot.Executions)
 	r.Set("choice_points_visited", tot.Points)
@@ -370,7 +395,7 @@ func Replay(r *report.Run, raw json.RawMessage) {
 	}
 	c := v.Case
 	x := explore.Replay(c.Choices)
-	problems, _, trace := exec(c.Shape, c.Crash, x)
+	problems, _, trace := exec(c.Shape, c.Crash, c.Ck, x)
 	for _, t := range trace {
 		fmt.Println("  ", t)
 	}
